@@ -7,6 +7,8 @@
 #[path = "../inputs.rs"]
 #[allow(dead_code)]
 mod inputs;
+#[path = "../attrsoup.rs"]
+mod attrsoup;
 #[path = "../pool.rs"]
 #[allow(dead_code)]
 mod pool;
@@ -48,7 +50,8 @@ fn sem_check(db: &RootDatabase, text: &str) -> usize {
     let crate_id = CrateLongId::Virtual {
         name: SmolStrId::from(db, "h10sem"),
         file_id,
-        settings: "edition = \"2024_07\"\n".to_string(),
+        settings: "edition = \"2024_07\"\n[experimental_features]\nnegative_impls = true\nassociated_item_constraints = true\ncoupons = true\nuser_defined_inline_macros = true\nrepr_ptrs = true\n"
+            .to_string(),
         cache_file: None,
     }
     .intern(db);
@@ -159,6 +162,12 @@ fn driver(out_dir: &str, tier: &str) {
             list.push(inputs::Input { text: s, cat: "edge".into(), origin: format!("edge #{i}"), coq: false });
         }
     }
+    // attribute / inline-macro argument soup (names enumerated from the sources)
+    let n_before = list.len();
+    for (text, cat, origin) in attrsoup::generate(&mut rng, tier == "thorough") {
+        list.push(inputs::Input { text, cat, origin, coq: false });
+    }
+    let n_soup = list.len() - n_before;
     let mut seen = HashSet::new();
     list.retain(|i| seen.insert(i.text.clone()));
     let jobs: Vec<(u32, &str)> = list.iter().map(|i| (0u32, i.text.as_str())).collect();
@@ -203,7 +212,7 @@ fn driver(out_dir: &str, tier: &str) {
     drop(p);
     let summary = json!({
         "leg": "semantic+lowering diagnostics (DiagnosticsReporter::check)", "tier": tier,
-        "inputs": list.len(), "by_category": by_cat, "inputs_without_diagnostics": clean,
+        "inputs": list.len(), "attr_macro_soup_generated": n_soup, "by_category": by_cat, "inputs_without_diagnostics": clean,
         "inputs_with_diagnostics": with_diags, "failing": failing.len(),
         "seconds": t0.elapsed().as_secs_f64(),
     });
